@@ -123,4 +123,18 @@ Theorem C11_byte_level_directory_holds_only_the_files_of_its_maps : forall qs d 
     (forall name, is_Some (g' !! name) <-> is_Some ((fst (ideal_run iw qs)) !! name)).
 Proof. exact sessions_leave_only_map_files. Qed.
 
+(** the same with sessions whose histories also contain full traversals and statistics calls (Io_world_w.v, over Io_wrun.v):
+    every result of every session is what the ideal map of THAT map at THAT moment says - a traversal yields a permutation of
+    it, never an entry of another map *)
+From Aby Require Import Io_wrun Io_world_w.
+Theorem C11_byte_level_sessions_with_traversals_refine_independent_ideal_maps : forall qs d g iw,
+  DRep d g -> GRep g iw -> wreqs_ok g qs ->
+  exists d' g' outs, wdir_run d qs = Ok (d', outs) /\ wagree_sessions iw qs outs /\ DRep d' g' /\ GRep g' (wideal_run iw qs).
+Proof. exact wsessions_refine_ideal_maps. Qed.
+
+Theorem C11_byte_level_session_with_traversals_touches_only_its_own_files : forall d name t n bk bv bh ops d' outs,
+  wsession d name t n bk bv bh ops = Ok (d', outs) ->
+  forall fn, (forall f, fn <> fname name f) -> d' !! fn = d !! fn.
+Proof. exact wsession_frame. Qed.
+
 Example C11_nonvacuous_directory := Io_world.ex_sessions.
